@@ -227,6 +227,19 @@ func c10Gen(c *engine.C) engine.Case {
 	}
 	src := jg.Print(cls, layout)
 	files := []FileSpec{{Path: "src/Big.java", Content: src}}
+	// a file analysed before it: nothing is to be reported for it, and it must not change what is reported for the class
+	switch engine.PickTag(c, "file-before-it", "none", "interface-with-a-plain-method", "interface-with-a-getter", "enum-with-a-method", "annotation-type", "class-with-one-plain-method") {
+	case "interface-with-a-plain-method":
+		files = append(files, FileSpec{Path: "src/ARepo.java", Content: "package p;\n\npublic interface ARepo {\n    void save(String b);\n}\n"})
+	case "interface-with-a-getter":
+		files = append(files, FileSpec{Path: "src/ARepo.java", Content: "package p;\n\npublic interface ARepo {\n    String getName();\n}\n"})
+	case "enum-with-a-method":
+		files = append(files, FileSpec{Path: "src/AKind.java", Content: "package p;\n\npublic enum AKind {\n    ONE, TWO;\n\n    public int weigh(int n) {\n        return n + 1;\n    }\n}\n"})
+	case "annotation-type":
+		files = append(files, FileSpec{Path: "src/AMark.java", Content: "package p;\n\npublic @interface AMark {\n    String value();\n}\n"})
+	case "class-with-one-plain-method":
+		files = append(files, FileSpec{Path: "src/ACalc.java", Content: "package p;\n\npublic class ACalc {\n    public int add(int x, int y) {\n        return x + y;\n    }\n}\n"})
+	}
 	// a file analysed after it that declares neither a class nor an interface: nothing is to be reported for it
 	switch engine.PickTag(c, "file-without-class-after-it", "none", "enum-with-getter", "package-info", "annotation-type", "zero-bytes", "blank-lines-only", "comments-only") {
 	case "zero-bytes":
